@@ -177,6 +177,7 @@ func (s *TunnelServiceHandler) openReverseTunnel(stream tunnelpb.TunnelService_O
 	verifYield("rev.open.betweenAdds")
 
 	rc := s.reverseChannelsForKey(key)
+	verifYield("rev.open.beforeKeyAdd")
 	rc.add(ch, key)
 	defer rc.remove(ch)
 
